@@ -65,13 +65,14 @@ class P(Prop):
             one_spec = rng.random() < 0.6
             pool = [k for k in KINDS if k[2] == "IMO"] if one_spec else KINDS
             recs = []
+            tiny = Fraction(1, 2 ** 40) if rng.random() < 0.15 else 1      # flows of the order 1e-10 (tonnes per second, scaled records)
             for _r in range(rng.randint(2, 4)):
                 ne = rng.choice([0, 1, 1, 2, 2, 3, 4])
                 ents = []
                 for _e in range(ne):
                     k = rng.choice(pool) if not ents or rng.random() > 0.15 else ents[-1][0]
                     zero_all = rng.random() < 0.1
-                    ms = [Fraction(0) if (zero_all or rng.random() < 0.2) else Fraction(rng.randint(1, 400), 8) for _ in range(n)]
+                    ms = [Fraction(0) if (zero_all or rng.random() < 0.2) else Fraction(rng.randint(1, 400), 8) * tiny for _ in range(n)]
                     ents.append([list(k), ms])
                 recs.append(ents)
             if series and rng.random() < 0.3 and recs:   # a step in which every record is zero
